@@ -30,6 +30,18 @@ def step(w, prev, cur, op, res):
                 return [('stale-attempt-moved-job', 'a message for an attempt that is not the job\'s current attempt never changes the job',
                          f'{op[0]} for attempt {res["attempt_id"]} moved job {k} from {pj["state"]}/{pj["attempt_id"]} to '
                          f'{cj["state"]}/{cj["attempt_id"]}')]
+    # deactivating an instance withdraws the attempts placed on it: only a job whose CURRENT attempt sits on that instance may move
+    if op[0] == 'deactivate' and res.get('ok') and res.get('instance'):
+        for k, cj in cur.jobs.items():
+            pj = prev.jobs.get(k)
+            if pj is None or pj['state'] == cj['state']:
+                continue
+            a = prev.attempts.get((k[0], k[1], pj['attempt_id'])) if pj['attempt_id'] is not None else None
+            if a is None or a['instance_name'] != res['instance']:
+                return [('deactivate-moved-foreign-job', 'a Creating or Running job falls back to Ready only when its own attempt is withdrawn',
+                         f'deactivating {res["instance"]} moved job {k} {pj["state"]} -> {cj["state"]} although its current attempt '
+                         f'{pj["attempt_id"]} is on {a["instance_name"] if a else None}')]
+            w.saw_deactivate_with_job = True
     return []
 
 
